@@ -83,7 +83,7 @@ def main():
                 r = fn(slf, *args, **kwargs) if is_method else fn(*args, **kwargs)
             except TypeError as e:
                 s = str(e)
-                if s.startswith("Ambiguous"):
+                if __import__("_errs").amb(s):
                     if len(methods) < 2:
                         fail(f"{pattern}.spurious_ambiguity", shape=label, call=[k, sorted(kws)], error=s[:80])
                     continue
@@ -149,7 +149,7 @@ def main():
                             msg = str(e)
                             loud = "positional-only" in msg or "unexpected keyword" in msg or "multiple values" in msg or "required positional" in msg
                             documented = uniform and (maxpos - minreq) <= 1 and not gap
-                            if msg.startswith("Ambiguous"):
+                            if __import__("_errs").amb(msg):
                                 continue
                             if not loud or documented:
                                 fail("positional_by_keyword.rejected_although_documented" if documented else "positional_by_keyword.rejected_by_the_dispatch_not_the_binding", shape=label, call=call, error=msg[:100])
